@@ -101,8 +101,15 @@ def gadget(kind, n, tag, rnd):
         U = [v(0) + '().nxt.nxt.nxt.', v(0) + '().step().step().']
     elif kind == 'dict_self_attr':
         L += ['class %s:' % v(0), '    def __init__(self):', '        self.d = {}',
-              '        self.d = dict(self.d)', '        self.s = set(self.s)', '']
-        U = [v(0) + '().d[0].', v(0) + '().d', 'for q%s in %s().s: q%s' % (tag, v(0), tag)]
+              '        self.d = dict(self.d)', '']
+        U = [v(0) + '().d[0].', v(0) + '().d']
+    elif kind == 'list_self_attr':
+        L += ['class %s:' % v(0), '    def __init__(self):', '        self.items = []',
+              '        self.items = list(self.items)', '        self.names = set(self.names)', '']
+        L += ['%s_reg = []' % tag, 'def %s_f():' % tag, '    global %s_reg' % tag,
+              '    %s_reg = list(%s_reg)' % (tag, tag), '']
+        U = [v(0) + '().items.', v(0) + '().items[0]', 'for q%s in %s().names: q%s' % (tag, v(0), tag),
+             '%s_reg[0]' % tag, v(0) + '().items']
     elif kind == 'type_comment_self':
         L += ['for %s in []:  # type: %s' % (v(0), v(0)), '    pass']
         U = [v(0), v(0) + '.']
@@ -121,7 +128,7 @@ def gadget(kind, n, tag, rnd):
 
 GADGETS = ['assign', 'assign_fwd', 'call', 'call_unbounded', 'inherit', 'self_inherit', 'attr',
            'container', 'decorator', 'property', 'getattr', 'generator', 'lambda', 'closure',
-           'param_default', 'annotation', 'dict_self_attr', 'type_comment_self',
+           'param_default', 'annotation', 'dict_self_attr', 'list_self_attr', 'type_comment_self',
            'annotation_self_call', 'mutual_literals']
 
 
